@@ -111,6 +111,31 @@ pub fn run(args: &[String]) -> String {
             }
             "HOLDS bound: all ordered pairs of (key, state) events x 64 mode / layout-change schedules, each followed by 3 probe presses (incl. the same key again)".into()
         }
+        // the event scenarios with each of the crate's own layouts (aspect as for `events`): all ordered pairs of (key, state)
+        // events + a probe press, 8 mode schedules
+        "events-real" => {
+            let aspect: u8 = if args.len() > 1 { args[1].parse().unwrap() } else { 3 };
+            let n = X_NKEYS as u32;
+            for layout in 0u8..10 {
+                for k0 in 0..n {
+                    for s0 in 0..3u32 {
+                        for k1 in 0..n {
+                            for s1 in [0u32, 1] {
+                                for k2 in [k1, 16] {
+                                    for modes in [0u8, 7, 2, 5] {
+                                        let (a, b, c) = (k0 as u8, k1 as u8, k2 as u8);
+                                        if !guarded(move || scenario_events_real([a, b, c], [s0 as u8, s1 as u8, 1], modes, layout, aspect, false)) {
+                                            return hit("events_real", &[k0 as u64, k1 as u64, k2 as u64, s0 as u64, s1 as u64, 1, modes as u64, layout as u64, aspect as u64]);
+                                        }
+                                    }
+                                }
+                            }
+                        }
+                    }
+                }
+            }
+            "HOLDS bound: each of the 10 layouts (through the wrapper) x all ordered pairs of (key, state) events + a probe press x 4 mode schedules".into()
+        }
         // C17 (switching): all ordered pairs of (key, state) events + a repeat / probe third press, the variant switched before
         // the 2nd or 3rd event, three pairs of variants, both modes; compared with a decoder that held the target all along
         "switching" => {
@@ -121,7 +146,7 @@ pub fn run(args: &[String]) -> String {
                         for s1 in [0u32, 1] {
                             for k2 in [k1, k0, 16] {
                                 for at in [1u8, 2] {
-                                    for (from, to) in [(0u8, 2u8), (1, 3), (2, 4), (0x80, 2), (0x81, 3)] {
+                                    for (from, to) in [(0u8, 2u8), (1, 3), (2, 4), (0x80, 2), (0x81, 3), (0x80, 6), (0x82, 9)] {
                                         for mode in [false, true] {
                                             let (a, b, c) = (k0 as u8, k1 as u8, k2 as u8);
                                             if !guarded(move || scenario_switching([a, b, c], [s0 as u8, s1 as u8, 1], at, from, to, mode, false)) {
@@ -135,7 +160,7 @@ pub fn run(args: &[String]) -> String {
                     }
                 }
             }
-            "HOLDS bound: all ordered pairs of (key, state) events + third press (same key / first key / a letter), variant switched before event 2 or 3, 3 variant pairs by value + 2 by reference, both modes".into()
+            "HOLDS bound: all ordered pairs of (key, state) events + third press (same key / first key / a letter), variant switched before event 2 or 3, 3 variant pairs by value + 4 by reference (compared with a by-value decoder), both modes".into()
         }
         // C07 proper: resynchronisation after every 1..3-byte stream whose last output is an event or error, 6 probe suffixes;
         // and the bound on consecutive 'no event yet' over all 4-byte streams of prefix-like bytes
